@@ -8,7 +8,7 @@
 From Coq Require Import Reals Lra List Bool Arith ZArith.
 From Coquelicot Require Import Complex.
 From QV Require Import Sem Mat2 Toff2 Chain Barenco GateA McxModel LinearMcx LdmcsuModel QdmcuModel.
-From QV Require LdmcuCore LdmcuModel LdmcuInst.
+From QV Require LdmcuCore LdmcuModel LdmcuInst AbcModel.
 Open Scope R_scope.
 
 (* CV(c->t) ; MCX(rest->c) ; CV^dagger(c->t) ; MCX(rest->c) ; C^{rest}V(t)  =  U on t controlled on rest /\ c,
@@ -91,3 +91,18 @@ Theorem C04_ldmcu_weights : forall m b,
    = LdmcuCore.bz (LdmcuCore.ones (S m) b) * 2 ^ Z.of_nat m)%Z.
 Proof. exact LdmcuCore.weight_identity. Qed.
 Print Assumptions C04_ldmcu_weights.
+
+(* LdMcSpecialUnitary (Barenco Lemma 7.9 + Iten et al. Theorem 5): every k >= 1 controls, every pattern.  M 9, M 10, M 11 are the
+   operators A, B, C of U (used as they are below three controls); from three controls on the controlled A, B, C are themselves
+   blocks  a ; cx ; b ; cx ; c  (M 0..2 for A, M 3..5 for B, M 6..8 for C) around the LinearMcx on the first k-1 controls, which
+   targets the target qubit and borrows the last control (action_only from six controls on) and its inverse. *)
+Theorem C04_ldmc_special : forall (M : nat -> mat2) (MA MB MC U : mat2),
+  mmul (M 0) (mmul Xm (mmul (M 1) (mmul Xm (M 2)))) = MA -> mmul (M 0) (mmul (M 1) (M 2)) = I2 ->
+  mmul (M 3) (mmul Xm (mmul (M 4) (mmul Xm (M 5)))) = MB -> mmul (M 3) (mmul (M 4) (M 5)) = I2 ->
+  mmul (M 6) (mmul Xm (mmul (M 7) (mmul Xm (M 8)))) = MC -> mmul (M 6) (mmul (M 7) (M 8)) = I2 ->
+  mmul MA (mmul Xm (mmul MB (mmul Xm MC))) = U -> mmul MA (mmul MB MC) = I2 ->
+  mmul (M 9) (mmul Xm (mmul (M 10) (mmul Xm (M 11)))) = U -> mmul (M 9) (mmul (M 10) (M 11)) = I2 ->
+  forall (k : nat) (pat : list bool) (psi : state), 1 <= k ->
+  AbcModel.arun M (AbcModel.abc k pat) psi = appf (fun x => if pmatch pat k x then U else I2) k psi.
+Proof. exact AbcModel.abc_sem. Qed.
+Print Assumptions C04_ldmc_special.
